@@ -66,40 +66,32 @@ def r1_logger(ctx):
                     vals[F.field_index(ENTRY, "value")] = Sym("value:%d" % i)
                     return Agg("adt", ENTRY, "Entry", vals)
 
-                def holding(interp, env, f, args):
-                    outs_ = interp.call_value(args[1], [Ref(conf_home, [], frame="root"), args[0]])
-                    if outs_ and len(outs_) == 1 and outs_[0][2] == "return":
-                        interp.mstate.clear()
-                        interp.mstate.update(outs_[0][3])
-                        return outs_[0][0]
-                    return TOP
+                # the LogConfig and the Log are cells of the typed store; the real State::holding is followed
+                import statemodel
+                conf_val = Agg("adt", CONF, "LogConfig", [Vec("rules")])
+                log_val = Agg("adt", LOG + "log::Log", "Log", [Vec("steps")])
 
-                def bm(interp, env, f, args):
-                    g0 = (f.get("gargs") or [""])[0]
-                    if g0 == LOG + "log::Log":
-                        return Ref(log_home, [], frame="root")
-                    if g0.startswith(CONF + "<"):
-                        return Ref(conf_home, [], frame="root")
-                    return TOP
-
-                def take_conf(interp, env, f, args):
-                    if not (f.get("gargs") or [""])[0].startswith(CONF + "<"):
-                        return TOP
-                    return ok(interp.read_ref(env, Ref(conf_home, [], frame="root")))
-
-                def put_conf(interp, env, f, args):
-                    if not (f.get("gargs") or [""])[0].startswith(CONF + "<"):
-                        return TOP
-                    interp.write_ref(env, Ref(conf_home, [], frame="root"), load(interp, env, args[1]))
-                    return NONE
-                table = {COND + "::evaluate": ev, LOG + "extractor::EntryExtractor::extract_entry": ex, "mahf::state::State::holding": holding,
-                         "mahf::state::registry::StateRegistry::contains": True, "mahf::state::registry::StateRegistry::borrow_mut": bm,
-                         "mahf::state::registry::StateRegistry::remove": take_conf, "mahf::state::registry::StateRegistry::insert": put_conf,
-                         "mahf::state::State::iterations": Sym("iterations-now")}
-                it = install(Interp(fn.body, chain(mk_oracle(table), coll_oracle, std_oracle), [Sym("self"), Sym("problem"), Sym("state")], facts=F, inline=INL, max_visits=12, max_paths=100))
+                def auto(ty, conf_val=conf_val, log_val=log_val):
+                    if ty.startswith(CONF + "<") or ty == CONF:
+                        return {0: conf_val}
+                    if ty == LOG + "log::Log":
+                        return {0: log_val}
+                    if "::holding::" in ty:
+                        return {}
+                    return None
+                store = statemodel.Store(F, levels=1, auto=auto)
+                table = {COND + "::evaluate": ev, LOG + "extractor::EntryExtractor::extract_entry": ex, "mahf::state::State::iterations": Sym("iterations-now")}
+                reg_i = F.field_index("mahf::state::State", "registry")
+                nf = len(F.adt("mahf::state::State")["variants"][0]["fields"])
+                svals = [Sym("phantom")] * nf
+                svals[reg_i] = Sym("reg:0")
+                state_home = 11001
+                inl = lambda k_: INL(k_) or k_.startswith("mahf::state::State::holding") or k_.startswith("<mahf::state::State as core::ops::deref") or statemodel.inline(k_)
+                it = install(Interp(fn.body, chain(mk_oracle(table), store, coll_oracle, std_oracle), [Sym("self"), Sym("problem"), Ref(state_home, [], frame="root")], facts=F, inline=inl, max_visits=12, max_paths=100))
                 log_idx = F.field_index(LOG + "log::Log", "steps")
-                it.extra_env = {log_home: Agg("adt", LOG + "log::Log", "Log", [Vec("steps")]), conf_home: Agg("adt", CONF, "LogConfig", [Vec("rules")])}
+                it.extra_env = {state_home: Agg("adt", "mahf::state::State", "State", svals)}
                 it.init_state = {"heap": {"steps": (Sym("earlier-step"),), "rules": tuple(rules)}, "next_vec": 0}
+                store.install(it)
                 n += 1
                 fired = [i for i in range(k) if outs[i]]
                 want_entries = []
@@ -115,7 +107,8 @@ def r1_logger(ctx):
                     if p.end != "return" or not (isinstance(p.ret, Agg) and p.ret.variant == "Ok"):
                         bad.append(ctxs + ("does not complete (%s %s)" % (p.end, p.ret),))
                         continue
-                    steps = p.mstate["heap"].get("steps", ())
+                    lv_ = statemodel.payload_of(store, p, LOG + "log::Log", Vec("steps"))
+                    steps = p.mstate["heap"].get(getattr(lv_, "vid", None), ())
                     if not fired:
                         if len(steps) != 1:
                             bad.append(ctxs + ("appends %d step(s) although no trigger fired" % (len(steps) - 1),))
